@@ -201,7 +201,7 @@ pub fn worker<W: World>(
 
 /// In-process batch for the Miri tier (also runs natively). Output protocol on stdout:
 /// `RUN <i>` before each run, `FOUND <json Found>` per oracle violation, `DONE <runs> <steps>`.
-pub fn miri_batch<W: World>(prop: &str, seed: u64, from: u64, to: u64, sweep: bool, stride: u64, offset: u64) -> i32 {
+pub fn miri_batch<W: World>(prop: &str, seed: u64, from: u64, to: u64, sweep: bool, stride: u64, offset: u64, light: bool) -> i32 {
     install_quiet_panic_hook();
     let mut ctx = Ctx::new(prop, Tier::Quick);
     let trace = std::env::args().any(|a| a == "--trace");
@@ -209,7 +209,7 @@ pub fn miri_batch<W: World>(prop: &str, seed: u64, from: u64, to: u64, sweep: bo
     let wanted: Vec<u64> = (from..to).filter(|r| stride <= 1 || r % stride == offset % stride).collect();
     let mut sweep_cases: std::collections::BTreeMap<u64, W::Case> = if sweep { W::sweep_some(&wanted).into_iter().collect() } else { Default::default() };
     for run in from..to {
-        if stride > 1 && run % stride != offset % stride {
+        if sweep && !sweep_cases.contains_key(&run) {
             continue;
         }
         println!("RUN {run}");
@@ -720,7 +720,9 @@ pub fn cmd_replay(path: &str, json_out: bool) -> i32 {
             return 2;
         }
     };
-    if !json_out {
+    // (`--inproc`: the Miri tier replays inside the interpreter, which cannot spawn processes)
+    let inproc = std::env::args().any(|a| a == "--inproc");
+    if !json_out && !inproc {
         // user-facing replay: the plan itself runs in a child process, so that a plan which kills
         // the process (abort on a double panic, segfault) or never ends is still reported properly
         let exe = std::env::current_exe().expect("current_exe");
